@@ -765,8 +765,17 @@ func (sp *StaticPredicate) IsFalse() bool {
 	if sp.contradiction {
 		return true
 	}
-	match, _ := io.GenericComparison(sp.min, sp.max, io.GT)
+	match, _ := io.GenericComparison(sp.comparable(sp.min), sp.comparable(sp.max), io.GT)
 	return match
+}
+
+// comparable returns a bound of this predicate on the scale its bounds are compared on: an Epoch
+// literal may be given in epoch seconds or in nanoseconds.
+func (sp *StaticPredicate) comparable(value interface{}) interface{} {
+	if epoch, ok := value.(int64); ok && sp.Column != nil && sp.Column.GetName() == "Epoch" {
+		return convertUnitToNanosec(epoch)
+	}
+	return value
 }
 
 func (sp *StaticPredicate) SetMin(newMin interface{}, inclusive bool) {
@@ -855,8 +864,8 @@ func (sp *StaticPredicate) AddComparison(op io.ComparisonOperatorEnum,
 	switch op {
 	case io.EQ:
 		if sp.ContentsEnum.IsSet(EQUALITY) {
-			lt, _ := io.GenericComparison(value, sp.equal, io.LT)
-			gt, _ := io.GenericComparison(value, sp.equal, io.GT)
+			lt, _ := io.GenericComparison(sp.comparable(value), sp.comparable(sp.equal), io.LT)
+			gt, _ := io.GenericComparison(sp.comparable(value), sp.comparable(sp.equal), io.GT)
 			if lt || gt {
 				sp.contradiction = true // x = a AND x = b with a != b
 			}
@@ -868,11 +877,11 @@ func (sp *StaticPredicate) AddComparison(op io.ComparisonOperatorEnum,
 			sp.SetMax(value, op == io.LTE)
 			return nil
 		}
-		below, err := io.GenericComparison(value, sp.max, io.LT)
+		below, err := io.GenericComparison(sp.comparable(value), sp.comparable(sp.max), io.LT)
 		if err != nil {
 			return err
 		}
-		above, _ := io.GenericComparison(value, sp.max, io.GT)
+		above, _ := io.GenericComparison(sp.comparable(value), sp.comparable(sp.max), io.GT)
 		if below || (!above && op == io.LT) {
 			sp.ContentsEnum.DelOption(INCLUSIVEMAX)
 			sp.SetMax(value, op == io.LTE)
@@ -882,11 +891,11 @@ func (sp *StaticPredicate) AddComparison(op io.ComparisonOperatorEnum,
 			sp.SetMin(value, op == io.GTE)
 			return nil
 		}
-		above, err := io.GenericComparison(value, sp.min, io.GT)
+		above, err := io.GenericComparison(sp.comparable(value), sp.comparable(sp.min), io.GT)
 		if err != nil {
 			return err
 		}
-		below, _ := io.GenericComparison(value, sp.min, io.LT)
+		below, _ := io.GenericComparison(sp.comparable(value), sp.comparable(sp.min), io.LT)
 		if above || (!below && op == io.GT) {
 			sp.ContentsEnum.DelOption(INCLUSIVEMIN)
 			sp.SetMin(value, op == io.GTE)
